@@ -132,6 +132,9 @@ def run(ctx):
         if abs(s - want) > tol:
             ctx.violation(f"sample-independent predictions give {s}, expected {want}", "independence", {"config": cfg, "P": P.tolist(), "A": None if A is None else A.tolist()}, key=f"indep:{cfg}", how=how)
         ctx.compared("independence:" + cfg)
+    # gradients handed out by one object for an input and for its re-ordered version must both survive (no shared work array):
+    # the reuse sequences of C01 keep every returned gradient and re-read it after the later calls
+    c01.reuse_sequences(ctx, eps, grad=True)
     # many samples and many clusters (N x K x K intermediates no longer fit a cache line, a block, a chunk ...): the invariances and
     # the definition must hold there as well; hard assignments handed over as integer / boolean arrays are the same predictions
     for cls, ovo in [c for c in gl.CONFIGS if c[0] != "wass"]:
